@@ -941,9 +941,26 @@ def run(repo, rep, tier):
     grid_fns = [f for f, _ in two_d]
     for f in grid_fns:
         binders = {}
+        once = {}
+        for n in walk_local_stmt(f.node):
+            if isinstance(n, ast.Assign) and len(n.targets) == 1 and isinstance(n.targets[0], ast.Name):
+                once.setdefault(n.targets[0].id, []).append(n.value)
+
+        def through_local(e):
+            """a local bound once to `range(...)` stands for that range"""
+            if isinstance(e, ast.Name) and len(once.get(e.id, [])) == 1 and e.id not in f.params:
+                v = once[e.id][0]
+                if isinstance(v, ast.Call) and isinstance(v.func, ast.Name) and v.func.id == "range":
+                    return v
+            return e
+
         for n in walk_local_stmt(f.node):
             if isinstance(n, ast.For):
-                it = n.iter
+                it = through_local(n.iter)
+                if isinstance(it, ast.Call) and isinstance(it.func, ast.Name) and it.func.id == "enumerate" and it.args:
+                    import copy as _copy
+                    it = _copy.copy(it)
+                    it.args = [through_local(it.args[0])] + list(it.args[1:])
                 tnames = [x.id for x in ast.walk(n.target) if isinstance(x, ast.Name)]
                 kind = None
                 if isinstance(it, ast.Call) and isinstance(it.func, ast.Name) and it.func.id == "range":
